@@ -49,19 +49,24 @@ func (tl *TaskLane) startQueue(index int) {
 
 	var task Task
 	for {
+		verifPoint(tl.ctx, "queue.loop", index)
 		select {
 		case <-tl.ctx.Done():
 			return
 		case task = <-tl.bufferedQueueList[index]:
 		}
+		verifPoint(tl.ctx, "queue.afterTake", index)
 		tl.blockingTaskCnt.Add(1)
+		verifPoint(tl.ctx, "queue.afterCount", index)
 		select {
 		case <-tl.ctx.Done():
 			return
 		default:
+			verifPoint(tl.ctx, "queue.beforeOffer", index)
 			select {
 			case tl.blockingQueueList[index] <- task:
 			default:
+				verifPoint(tl.ctx, "queue.beforeBlockingOffer", index)
 				select {
 				case <-tl.ctx.Done():
 					return
@@ -70,6 +75,7 @@ func (tl *TaskLane) startQueue(index int) {
 				}
 			}
 		}
+		verifPoint(tl.ctx, "queue.afterHandover", index)
 		tl.blockingTaskCnt.Add(^uint32(0)) // decrement blockingTaskCnt
 	}
 }
@@ -79,13 +85,16 @@ func (tl *TaskLane) startWorker(index int) {
 
 	var task Task
 	for {
+		verifPoint(tl.ctx, "worker.loop", index)
 		select {
 		case <-tl.ctx.Done():
 			return
 		default:
+			verifPoint(tl.ctx, "worker.beforeRecv", index)
 			select {
 			case task = <-tl.blockingQueueList[index]:
 			default:
+				verifPoint(tl.ctx, "worker.beforeBlockingRecv", index)
 				select {
 				case <-tl.ctx.Done():
 					return
@@ -94,6 +103,7 @@ func (tl *TaskLane) startWorker(index int) {
 				}
 			}
 		}
+		verifPoint(tl.ctx, "worker.afterRecv", index)
 		func() {
 			defer func() {
 				if err := recover(); err != nil {
@@ -102,6 +112,7 @@ func (tl *TaskLane) startWorker(index int) {
 			}()
 			task.Start()
 		}()
+		verifPoint(tl.ctx, "worker.afterTask", index)
 	}
 }
 
@@ -195,10 +206,12 @@ func (tl *TaskLane) ShortestQueueIndex() int {
 // context.Canceled or context.DeadlineExceeded if the context was Done.
 // tasklane.ErrTimeout if specified TaskQueue is full until timeout.
 func (tl *TaskLane) PushTask(task Task, index int) error {
+	verifPoint(tl.ctx, "push.enter", index)
 	select {
 	case <-tl.ctx.Done():
 		return tl.ctx.Err()
 	default:
+		verifPoint(tl.ctx, "push.beforeSelect", index)
 		select {
 		case <-tl.ctx.Done():
 			return tl.ctx.Err()
